@@ -13,7 +13,7 @@ import (
 
 // retrydelay slice: the real retry executor's getDelay through the VerifDelaySequence hook (no waiting).
 //
-//	retrydelay cfg <delay> <maxDelay> <factorNum> <factorDen> <min> <max> <jitter> <jfNum> <jfDen> <maxDuration> <delayFn|-2> [<fnUntil>]
+//	retrydelay cfg <delay> <maxDelay> <factorNum> <factorDen> <min> <max> <jitter> <jfNum> <jfDen> <maxDuration> <delayFn|-2> [<fnUntil> [<history 0|1>]]
 //	retrydelay seq <n> <elapsedStep>  => d_0,…,d_{n-1}
 type retryDelaySlice struct {
 	rp retrypolicy.RetryPolicy[any]
@@ -31,6 +31,17 @@ func (s *retryDelaySlice) exec(t []string) string {
 	case "cfg":
 		delay, maxDelay, fn, fd, mn, mx, jit, jn, jd, mdur, dfn := atoi(t[1]), atoi(t[2]), atoi(t[3]), atoi(t[4]), atoi(t[5]), atoi(t[6]), atoi(t[7]), atoi(t[8]), atoi(t[9]), atoi(t[10]), atoi(t[11])
 		b := retrypolicy.Builder[any]()
+		if len(t) > 13 && t[13] == "1" {
+			// builder history: other delay kinds were configured first; each setter replaces what the earlier ones configured
+			switch {
+			case mn != 0 || mx != 0:
+				b.WithBackoffFactor(7*time.Millisecond, 70*time.Millisecond, 3)
+			case maxDelay != 0:
+				b.WithRandomDelay(3*time.Millisecond, 9*time.Millisecond)
+			case delay != 0:
+				b.WithBackoffFactor(7*time.Millisecond, 70*time.Millisecond, 3).WithRandomDelay(3*time.Millisecond, 9*time.Millisecond)
+			}
+		}
 		switch {
 		case mn != 0 || mx != 0:
 			b.WithRandomDelay(time.Duration(mn), time.Duration(mx))
@@ -126,7 +137,7 @@ func genRetryDelay(r *rand.Rand, n int, tier string, emit func(string) string) {
 				fn, fd = f[0], f[1]
 			}
 		}
-		emit(fmt.Sprintf("retrydelay cfg %d %d %d %d %d %d %d %d %d %d %d %d", delay, maxDelay, fn, fd, mn, mx, jit, jn, jd, mdur, dfn, until))
+		emit(fmt.Sprintf("retrydelay cfg %d %d %d %d %d %d %d %d %d %d %d %d %d", delay, maxDelay, fn, fd, mn, mx, jit, jn, jd, mdur, dfn, until, r.Intn(2)))
 		emit(fmt.Sprintf("retrydelay seq %d %d", 1+r.Intn(24), step))
 	}
 }
